@@ -291,7 +291,17 @@ impl AutosarModel {
 
                 let (_, indices_a) = parent_type.find_sub_element(elem_a.element_name(), u32::MAX).unwrap();
                 let (_, indices_b) = parent_type.find_sub_element(elem_b.element_name(), u32::MAX).unwrap();
-                if indices_a < indices_b {
+                if let Some(sibling) = Self::find_merge_partner(parent_b, elem_a) {
+                    // the ordering on both sides is different: a match for a exists among the siblings of b
+                    // a: <parent> | <a = X> <Y>
+                    // b: <parent> | <b = Y> <X>
+                    MergeAction::MergeUnequal(sibling)
+                } else if Self::find_merge_partner(parent_a, elem_b).is_some() {
+                    // elem_a is unique in a, while elem_b is merged with its match among the siblings of a
+                    // a: <parent> | <a = X> <Y>
+                    // b: <parent> | <b = Y>
+                    MergeAction::AOnly
+                } else if indices_a < indices_b {
                     // elem_a comes before elem_b, advance only a
                     // a: <parent> | <a = child 1> <child 2>
                     // b: <parent> |               <b = child 2>
@@ -361,6 +371,29 @@ impl AutosarModel {
         Self::merge_sub_elements(elements_merge, files, new_file)?;
 
         Ok(())
+    }
+
+    // find the sub element of parent that elem would be merged with:
+    // the same kind of element with the same name, or else the same DEFINITION-REF
+    fn find_merge_partner(parent: &Element, elem: &Element) -> Option<Element> {
+        let element_name = elem.element_name();
+        if elem.is_identifiable() {
+            let item_name = elem.item_name();
+            parent
+                .sub_elements()
+                .find(|e| e.element_name() == element_name && e.item_name() == item_name)
+        } else {
+            let get_defref = |e: &Element| {
+                e.get_sub_element(ElementName::DefinitionRef)
+                    .and_then(|dr| dr.character_data())
+                    .and_then(|cdata| cdata.string_value())
+            };
+            let defref = get_defref(elem);
+            parent
+                .sub_elements()
+                .filter(|e| e.element_name() == element_name)
+                .find(|e| get_defref(e) == defref)
+        }
     }
 
     // calculate how to merge two identifiable elements
